@@ -800,6 +800,8 @@ class BluePrint:
             return False
         if not self._segmark2 == other._segmark2:
             return False
+        if not self._durslist == other._durslist:
+            return False
         return True
 
 
